@@ -169,6 +169,15 @@ func run(c *fw.Ctx, idx int) {
 			ref := gen.UCid(77)
 			p.Reference = &ref
 			p.MaxDepth = 0
+			// the replication factors a sharded add was given stay on its meta entry
+			switch i % 3 {
+			case 0:
+				p.ReplicationFactorMin, p.ReplicationFactorMax = -1, -1
+			case 1:
+				p.ReplicationFactorMin, p.ReplicationFactorMax = 1, 1
+			case 2:
+				p.ReplicationFactorMin, p.ReplicationFactorMax = 2, 3
+			}
 		}
 		return p
 	}
@@ -191,6 +200,9 @@ func run(c *fw.Ctx, idx int) {
 			f.lastOp = r.Pick("none", "none", "pin-ok", "pin-failed")
 		case "absent":
 			f.lastOp = r.Pick("none", "none", "unpin-ok", "unpin-failed", "realloc+untrack")
+		case "meta":
+			// handed to the tracker like any pinset change; the daemon may refuse whatever it is asked
+			f.lastOp = r.Pick("none", "tracked", "tracked/daemon-refuses")
 		}
 		facts[i] = f
 		// build it
@@ -200,6 +212,16 @@ func run(c *fw.Ctx, idx int) {
 				rig.St.Add(ctx, mkPin(i, f))
 			}
 			rig.IPFS.SetPin(cids[i], f.daemon)
+		case "tracked", "tracked/daemon-refuses":
+			rig.St.Add(ctx, mkPin(i, f))
+			rig.IPFS.SetPin(cids[i], f.daemon)
+			if f.lastOp == "tracked/daemon-refuses" {
+				fmu.Lock()
+				failPin[cids[i].KeyString()] = true
+				failUnpin[cids[i].KeyString()] = true
+				fmu.Unlock()
+			}
+			rig.T.Track(ctx, mkPin(i, f))
 		case "pin-ok":
 			// a real pin operation that succeeds: the daemon ends up holding it in the asked mode
 			rig.St.Add(ctx, mkPin(i, f))
